@@ -124,6 +124,15 @@ CLAIMED = {
             "the inline list and like the membership TLC computed; for every pattern the regex type must report the pattern, its Len as the /P/ token "
             "length whatever follows, an Example that TLC matches against the pattern, and the same verdicts as the inline regex rule.",
             "Patterns stay inside the printable-ASCII abstract grammar (12 patterns); lists up to 2/3 items over 10 literals.", "3/C18"),
+    "C14": ("TLC trace validation (TraceLen): for plain JSON texts the end of the first complete value is computed by TLC on the logged bytes with "
+            "the RFC 8259 automaton of JsonText (LenSpec!JsonLen); for generated schemas and enum rules the statement's domain is the TLA+ table "
+            "LenSpec!InDomain over (last token class, separator class, first tail byte)",
+            "Every logged Len() call - random JSON texts alone, followed by 9 separators x 6 directive-like tails, truncated at random offsets and "
+            "byte-mutated, through Document.Len (after four call preludes), Schema.Len and Enum.Len; generated schemas with rules, types, shortcuts "
+            "and notes and enum rules in four layouts x separators x tails - must return exactly the length TLC derives, or an error where no "
+            "complete text starts the input.",
+            "Empty / blank-only texts and a foreign byte directly after a number or literal are unspecified; 'same meaning of the prefix' follows "
+            "from Len = |S| and is not re-checked.", "3/C14"),
 }
 
 PENDING_REASON = "check under construction in this session - not claimed yet (no technique switch intended; see DESIGN.md section 3)"
